@@ -50,6 +50,8 @@ fn main() {
             let src = args.get(2).unwrap_or_else(|| usage());
             let argtxt = args.get(3).cloned().unwrap_or_else(|| "()".to_string());
             let opt = args.iter().any(|a| a == "--opt");
+            // --ambient 0|1 : hold the per-thread integer-conversion mode at that value around the compile
+            let _ambient = arg_after(&args, "--ambient").map(|v| chialisp::compiler::clvm::NewStyleIntConversion::new(v == "1"));
             // --modern SIGIL OPT FE POST : compile_file with an explicit option set
             let compiled = if let Some(sigil) = arg_after(&args, "--modern") {
                 let bits = arg_after(&args, "--bits").unwrap_or_else(|| "000".into());
@@ -146,7 +148,8 @@ fn main() {
             std::process::exit(h.unwrap().join().unwrap_or(3));
         }
         "helper-compile-text" => {
-            std::process::exit(props::c05::helper_compile_text(args.get(2).map(|s| s.as_str()).unwrap_or("cl23")));
+            let search: Vec<String> = args.iter().skip(3).cloned().collect();
+            std::process::exit(props::c05::helper_compile_text(args.get(2).map(|s| s.as_str()).unwrap_or("cl23"), &search));
         }
         "helper-compile" => {
             let src = PathBuf::from(args.get(2).expect("src"));
